@@ -19,9 +19,11 @@ ID = "C11"
 LEVEL = "exploration"
 RULE = (
     "schedules: ordered sequences of <= 3 (quick: <= 2 plus a reduced set of 3) elements, each a single leaf or a parallel of 2..3 "
-    "leaves drawn without repetition from 5 prototypes (names a, b, ab, d, e; types bulk/search/raw-request; tags ['x'], 'xy' as a "
-    "plain string, ['x','y'], none, 'x' as a string), in the first or second challenge of a track; filter lists: every list of 1..2 of "
-    "14 filters (names incl. a non-matching one, type:, tag: incl. substrings of other tags) as include and as exclude, plus "
+    "leaves drawn without repetition from 5 prototypes (names a, b, ab, d, x; types bulk/search/raw-request; tags ['x'], 'xy' as a "
+    "plain string, ['x','y','search'], none, 'x' as a string: a name that is also a tag and a tag that is also a type), parallel elements "
+    "with derived and with explicit clients, in the first or second challenge of a track; filter lists: every list of 1..2 of "
+    "15 filters (names incl. a non-matching one, type:, tag: incl. substrings of other tags; both orders where two filters of different "
+    "kinds carry the same value) as include and as exclude, plus "
     "malformed specs; a set of filtered schedules is executed end to end by the real driver and workers in the race simulation (default "
     "schedule). non-trivial = filter list selects a proper non-empty subset of the leaves; distinct = (schedule, filters, mode)"
 )
@@ -35,11 +37,11 @@ ASSUMPTIONS = [
 LEAVES = {
     "a": ("a", "bulk", ["x"], 2),
     "b": ("b", "search", "xy", 1),
-    "ab": ("ab", "search", ["x", "y"], 1),
+    "ab": ("ab", "search", ["x", "y", "search"], 1),  # one tag equals an operation type
     "d": ("d", "raw-request", None, 3),
-    "e": ("e", "bulk", "x", 1),
+    "x": ("x", "bulk", "x", 1),  # its name equals a tag value
 }
-FILTERS = ["a", "b", "ab", "d", "e", "zz", "type:bulk", "type:search", "type:raw-request", "type:composite", "tag:x", "tag:y", "tag:xy", "tag:z"]
+FILTERS = ["a", "b", "ab", "d", "x", "zz", "type:bulk", "type:search", "type:raw-request", "type:composite", "tag:x", "tag:y", "tag:xy", "tag:z", "tag:search"]
 MALFORMED = ["foo:bar", "a:b:c", "tags:x"]
 
 
@@ -72,11 +74,16 @@ def schedule_specs(tier):
 
     rec([], set(), 3 if tier == "thorough" else 2)
     if tier == "quick":
-        out += [[("a",), ("b", "ab"), ("d", "e")], [("a", "e"), ("d",), ("b", "ab")], [("b", "a", "d"), ("e",), ("ab",)]]
+        out += [[("a",), ("b", "ab"), ("d", "x")], [("a", "x"), ("d",), ("b", "ab")], [("b", "a", "d"), ("x",), ("ab",)]]
     return out
 
 
-def build_track(spec, challenge_pos):
+def cap_of(el, capped):
+    """explicit clients value of a parallel element in the capped variant (never above what its tasks need)"""
+    return 2 if capped and len(el) > 1 else None
+
+
+def build_track(spec, challenge_pos, capped=False):
     from esrally.track import track
 
     def leaf(n):
@@ -98,7 +105,7 @@ def build_track(spec, challenge_pos):
                 t = leaf(n)
                 objs[n] = t
                 ts.append(t)
-            schedule.append(track.Parallel(ts, clients=None))
+            schedule.append(track.Parallel(ts, clients=cap_of(el, capped)))
     other = [sc.mk_task("zz-other", op_type="search", tags=["x"])]
     c_main = track.Challenge("main", default=challenge_pos == 0, schedule=schedule)
     c_other = track.Challenge("other", default=challenge_pos != 0, schedule=other)
@@ -112,13 +119,12 @@ def snapshot(t):
     return d
 
 
-def check_case(spec, flts, exclude, challenge_pos, res):
+def check_case(spec, flts, exclude, challenge_pos, res, capped=False):
     from esrally import config, exceptions
     from esrally.track import loader, track
 
-    trk, c_main, c_other, objs = build_track(spec, challenge_pos)
+    trk, c_main, c_other, objs = build_track(spec, challenge_pos, capped)
     before = {n: snapshot(t) for n, t in objs.items()}
-    caps = [el._clients if isinstance(el, track.Parallel) else None for el in c_main.schedule]
     cfg = config.Config()
     cfg.add(config.Scope.application, "track", "exclude.tasks" if exclude else "include.tasks", list(flts))
     v = None
@@ -148,9 +154,13 @@ def check_case(spec, flts, exclude, challenge_pos, res):
             v = ("wrong-selection", f"filtered schedule {got}, expected {want} (kept but not selected: {extra}; selected but missing: {missing})")
         else:
             # identity, order, unchanged attributes; parallel elements stay parallel (even with one task left) and keep their cap
-            k = 0
-            for el, wel in zip(c_main.schedule, want):
+            want_src = [el for el in spec if any(sel[n] for n in el)]
+            for el, wel, src in zip(c_main.schedule, want, want_src):
                 ts = el.tasks if isinstance(el, track.Parallel) else [el]
+                if isinstance(el, track.Parallel) != (len(src) > 1):
+                    v = ("element-kind-changed", f"element {list(src)} became {type(el).__name__}")
+                elif isinstance(el, track.Parallel) and el._clients != cap_of(src, capped):
+                    v = ("parallel-clients-changed", f"element {list(src)}: explicit clients {el._clients}, was {cap_of(src, capped)}")
                 for t, n in zip(ts, wel):
                     if t is not objs[n]:
                         v = ("task-replaced", f"task {n} is not the original object")
@@ -175,18 +185,18 @@ def check_case(spec, flts, exclude, challenge_pos, res):
     nsel = sum(sel.values())
     res.case(
         case_repr={"schedule": [list(e) for e in spec], "filters": list(flts), "mode": "exclude" if exclude else "include",
-                   "challenge_position": challenge_pos, "expected": want}
+                   "challenge_position": challenge_pos, "parallel_clients": "explicit" if capped else "derived", "expected": want}
         if res.sample_now(20011)
         else None,
-        nontrivial_key=(repr(spec), flts, exclude, challenge_pos) if 0 < nsel < len(sel) else None,
+        nontrivial_key=(repr(spec), flts, exclude, challenge_pos, capped) if 0 < nsel < len(sel) else None,
         outcome_key=(v[0] if v else "ok", nsel, len(want)),
     )
     if v:
         kinds = sorted({("type" if f.startswith("type:") else "tag" if f.startswith("tag:") else "name") for f in flts})
         res.violation(
             f"filter:{v[0]}:{'exclude' if exclude else 'include'}",
-            f"schedule {[list(e) for e in spec]} (challenge #{challenge_pos}) {'exclude' if exclude else 'include'}={list(flts)} ({'+'.join(kinds)}): {v[1]}",
-            {"spec": [list(e) for e in spec], "filters": list(flts), "exclude": exclude, "pos": challenge_pos},
+            f"schedule {[list(e) for e in spec]}{' (explicit clients on parallel elements)' if capped else ''} (challenge #{challenge_pos}) {'exclude' if exclude else 'include'}={list(flts)} ({'+'.join(kinds)}): {v[1]}",
+            {"spec": [list(e) for e in spec], "filters": list(flts), "exclude": exclude, "pos": challenge_pos, "capped": capped},
         )
 
 
@@ -252,10 +262,10 @@ def check_raced(spec, flts, exclude, res):
 
 
 def race_cases(tier):
-    specs = [[("a",), ("b", "ab")], [("a", "e"), ("d",)], [("b", "a", "d"), ("e",)], [("ab",), ("d", "e"), ("a",)]]
+    specs = [[("a",), ("b", "ab")], [("a", "x"), ("d",)], [("b", "a", "d"), ("x",)], [("ab",), ("d", "x"), ("a",)]]
     flists = [("a",), ("tag:x",), ("type:bulk",), ("d", "tag:y"), ("zz",), ("type:search", "a")]
     if tier == "thorough":
-        specs += [[("a",), ("b",), ("ab", "d", "e")], [("e", "d"), ("b", "a")]]
+        specs += [[("a",), ("b",), ("ab", "d", "x")], [("x", "d"), ("b", "a")]]
         flists = filter_lists()[:40]
     for sp in specs:
         for fl in flists:
@@ -297,6 +307,8 @@ def check_malformed(res):
 def filter_lists():
     out = [(f,) for f in FILTERS]
     out += list(itertools.combinations(FILTERS, 2))
+    # both orders for filters of different kinds that carry the same value
+    out += [(b, a) for a, b in itertools.combinations(FILTERS, 2) if a.split(":")[-1] == b.split(":")[-1]]
     return out
 
 
@@ -307,9 +319,12 @@ def _shard(specs):
     res = Result()
     fl = filter_lists()
     for i, spec in enumerate(specs):
+        has_par = any(len(el) > 1 for el in spec)
         for flts in fl:
             for exclude in (False, True):
                 check_case(spec, flts, exclude, 0, res)
+                if has_par:
+                    check_case(spec, flts, exclude, 0, res, capped=True)
         # the same rules apply to a challenge that is not the first one of the track
         for flts in fl[: len(FILTERS)]:
             for exclude in (False, True):
@@ -341,5 +356,5 @@ def replay(data):
     elif "malformed" in data:
         check_malformed(res)
     else:
-        check_case([tuple(e) for e in data["spec"]], tuple(data["filters"]), data["exclude"], data["pos"], res)
+        check_case([tuple(e) for e in data["spec"]], tuple(data["filters"]), data["exclude"], data["pos"], res, capped=data.get("capped", False))
     return [v for lst in res.violations.values() for v in lst]
